@@ -15,7 +15,7 @@ import re
 import subprocess
 import time
 
-from vf.common import HELD, INCONCLUSIVE, PY, VIOLATED, Run, case_hash, main_wrapper, run_pool, seed
+from vf.common import wall_budget, HELD, INCONCLUSIVE, PY, VIOLATED, Run, case_hash, main_wrapper, run_pool, seed
 
 PID = "C13"
 IDENT = re.compile(r"^[A-Za-z_][A-Za-z0-9_]*$")
@@ -182,7 +182,7 @@ def main(tier, replay=None):
     cases = cases_for(tier, s)
     if replay:
         cases = [json.load(open(replay))["replay"]["case"]]
-    results = run_pool("c13", cases, per_case_timeout=600, chunk=3, deadline=time.time() + (420 if tier == "quick" else 2400))
+    results = run_pool("c13", cases, per_case_timeout=600, chunk=3, deadline=time.time() + wall_budget(tier, 420, 2400))
     for r in results:
         run.add(r)
     run.require("stable_ok", 40 if not replay else 0)
